@@ -43,14 +43,25 @@ struct RuleDeclSubrangeLimits {
     diagnostics: Vec<Diagnostic>,
 }
 
+/// Returns true if the value of `a` is strictly less than the value of `b`.
+///
+/// Compares the sign and magnitude so that every literal is comparable
+/// (the magnitude is not necessarily in the range of a signed type).
+fn is_less(a: &SignedInteger, b: &SignedInteger) -> bool {
+    match (a.is_neg, b.is_neg) {
+        (false, false) => a.value.value < b.value.value,
+        (true, true) => a.value.value > b.value.value,
+        // Negative zero is equal to zero
+        (true, false) => a.value.value != 0 || b.value.value != 0,
+        (false, true) => false,
+    }
+}
+
 impl Visitor<Diagnostic> for RuleDeclSubrangeLimits {
     type Value = ();
 
     fn visit_subrange(&mut self, node: &Subrange) -> Result<(), Diagnostic> {
-        let minimum: i128 = node.start.clone().try_into().expect("Value in range i128");
-        let maximum: i128 = node.end.clone().try_into().expect("Value in range i128");
-
-        if minimum >= maximum {
+        if !is_less(&node.start, &node.end) {
             self.diagnostics.push(
                 Diagnostic::problem(
                     Problem::SubrangeMinStrictlyLessMax,
